@@ -163,6 +163,9 @@ fn stage_cfg(st: &Stage, thorough: bool, deadline: Instant, exe: &str) -> Explor
         seed: seed(),
         recheck_every: 1000,
         record_obs: st.hw_compare || st.twice,
+        // C19 demands byte-identical output for identical content: hidden nondeterminism of the
+        // writer is a violation of that property, not a machinery problem
+        nondeterminism_signature: if st.space.starts_with("c19.") { Some("C19/nondeterministic-across-executions".to_string()) } else { None },
     }
 }
 
